@@ -127,6 +127,31 @@ def same_body_under_scopes(rng, fg, labels=("", "d", "e"), closed_body=None):
     return out
 
 
+def twin_under_binders(rng, vars_):
+    """ONE open sub-formula TEXT twice at the same quantifier depth under the same binder names in PERMUTED order
+    (user-chosen names, so the library's renaming pass gives the occurrences different internal names)."""
+    names = ["a1", "b1", "x", "xx", "y", "s"]
+    k = rng.choice([2, 2, 3])
+    vs = rng.sample(names, k)
+    bg = gen.FormulaGen(rng, vars_, p_quant=0.0, quant=[], p_jump=0.3, unary=["not", "EX", "AX", "EF", "AG"], binary=["and", "or", "EU"])
+    body = bg.gen(rng.randint(1, 4), scope=list(vs))
+    for _ in range(10):
+        if len(gen.free_vars(body)) >= 1:
+            break
+        body = bg.gen(rng.randint(1, 4), scope=list(vs))
+    parts = []
+    for occ in range(2):
+        order = list(vs)
+        if occ:
+            while order == vs:
+                rng.shuffle(order)
+        f = copy.deepcopy(body)
+        for v in order:
+            f = H(rng.choice(["exists", "bind", "forall"]), v, f)
+        parts.append(f)
+    return B(rng.choice(["and", "or", "imp", "EU"]), parts[0], parts[1])
+
+
 def until_over_literals(rng, vars_):
     """phi U psi with phi, psi small Boolean combinations of literals whose supports differ: paths that
     must LEAVE phi through one particular variable to reach psi (and variants under EX / binders)."""
@@ -169,6 +194,8 @@ def gen_c01(rng, probe, tier):
                                    nvars=rng.choice([2, 2, 3]) if m["n"] == 2 else 2)
             elif j % 6 == 2:
                 f = until_over_literals(rng, m["vars"])
+            elif j % 6 == 4 and m["n"] <= 3:
+                f = twin_under_binders(rng, m["vars"])
             else:
                 f = fg.gen(rng.randint(2, 12 if m["n"] <= 3 else 8))
             k = k_for(f)
@@ -308,6 +335,31 @@ def gen_c03(rng, probe, tier):
             fs = [fg.gen(rng.randint(1, 6)) for _ in range(rng.randint(2, 3))]
             calls.append(call("multi_dirty", fs, max(k_for(x) for x in fs)))
             cases.append({"id": "%s-u%d" % (m["id"], j), "net": m["id"], "kinds": ["unit"], "calls": calls})
+        # one closed sub-formula inside a domain-restricted quantifier AND outside it (either order, in one
+        # formula or across a batch): the occurrence outside must not inherit the restriction of the variable
+        # copies (raw entry points; "for a closed formula the returned set does not depend on the symbolic
+        # variables that encode HCTL state variables")
+        closed_gen = gen.FormulaGen(rng, m["vars"], wild=["p"], p_quant=0.0, quant=[], p_jump=0.0,
+                                    unary=["not", "EX", "AX", "EF", "AG", "AF"], binary=["and", "or", "EU", "imp"])
+        for j in range(per_net // 2):
+            body = closed_gen.gen(rng.randint(2, 4))
+            inner = copy.deepcopy(body)
+            x = rng.random()
+            if x < 0.5:
+                inner = H("jump", "x", inner)
+            elif x < 0.8:
+                inner = B(rng.choice(["and", "or"]), inner, V("x"))
+            scoped = H(rng.choice(["exists", "forall", "bind"]), "x", inner, rng.choice(["d", "d", "e"]))
+            if rng.random() < 0.4:
+                scoped = H(rng.choice(["exists", "forall", "bind"]), "u", B(rng.choice(["and", "or"]), scoped, V("u")), rng.choice(["d", "e", ""]))
+            pair = [scoped, copy.deepcopy(body)]
+            if rng.random() < 0.3:
+                pair.reverse()
+            f = B(rng.choice(["and", "or", "imp"]), pair[0], pair[1])
+            ctx = {l: rand_ctx_spec(rng) for l in ("p", "d", "e")}
+            k = k_for(f)
+            cases.append({"id": "%s-s%d" % (m["id"], j), "net": m["id"], "kinds": ["unit"], "calls": [
+                call("ext_dirty", [f], k, ctx=ctx), call("multi_ext_dirty", pair, k, ctx=ctx)]})
     return nets, cases, ["unit"]
 
 
